@@ -32,10 +32,11 @@ type Action struct {
 }
 
 type Case struct {
-	Ctor    string         `json:"ctor"`
-	Args    []recipe.Text  `json:"args"`
-	Pool    []*recipe.Node `json:"pool"`
-	Actions []Action       `json:"actions"`
+	NoFormat bool           `json:"noformat,omitempty"`
+	Ctor     string         `json:"ctor"`
+	Args     []recipe.Text  `json:"args"`
+	Pool     []*recipe.Node `json:"pool"`
+	Actions  []Action       `json:"actions"`
 }
 
 func marker(p int) string { return "S" + strconv.Itoa(p) }
@@ -115,6 +116,7 @@ func genCase(maxSteps int) func(t *rapid.T) Case {
 		case 2:
 			c.Ctor, c.Args = "NewFilePath", []recipe.Text{"local/pkg"}
 		}
+		c.NoFormat = rapid.IntRange(0, 2).Draw(t, "noformat") == 0
 		np := rapid.IntRange(1, 6).Draw(t, "npool")
 		for i := 0; i < np; i++ {
 			c.Pool = append(c.Pool, genStmt(t))
@@ -196,6 +198,7 @@ func check(c Case) error {
 	fr := &recipe.File{Ctor: c.Ctor, Args: c.Args}
 	b := &recipe.Builder{}
 	f := b.File(fr)
+	f.NoFormat = c.NoFormat
 	local := ""
 	if c.Ctor != "NewFile" {
 		local = string(c.Args[0])
